@@ -5,7 +5,7 @@
    queue entries are scanned). *)
 From Hub Require Import Base.Prelude Base.Arith Model.Types Model.Keeper Model.Handlers Model.Hooks Model.Step.
 From Hub Require Import Proofs.Tactics Proofs.Sorting Proofs.Frames Proofs.KeysInv Proofs.Lifecycle Proofs.IndexSess Proofs.IndexNode
-  Proofs.InvDefs Proofs.IndexSub Proofs.IndexSub2 Proofs.IndexAll Proofs.Link Proofs.Witness Proofs.Cause Proofs.CauseSess Proofs.CauseNode.
+  Proofs.InvDefs Proofs.IndexSub Proofs.IndexSub2 Proofs.IndexAll Proofs.Link Proofs.Witness Proofs.Cause Proofs.CauseSess Proofs.CauseNode Proofs.Events.
 
 (* The life-cycle invariant (indices exact, parameters sane, every session linked to a live
    subscription which it cannot outlive) holds in every state of every history with increasing block
@@ -170,6 +170,54 @@ Proof. exact node_deactivation_cause. Qed.
    (the model settles in the same step that deletes the record, and removed identifiers never return:
    C04_removed_stays_removed). *)
 
+(* THE EVENT LIST (the observable the correspondence check compares with the real chain's events).
+   In the events of one whole operation of any kind the removal event of session [id]
+   ("session.EventUpdateStatus", status inactive, that identifier) occurs exactly once if the stored
+   session disappears in this operation and not at all otherwise; its settlement payment event
+   ("subscription.EventPayForSession" carrying that session identifier) occurs at most as often. *)
+Theorem C04_session_events_in_one_operation : forall s o s' id,
+  life_inv s -> step s o = OOk s' ->
+  cnt (is_removed_ev id) (events s') = removed_in s s' id /\
+  cnt (is_paysess_ev id) (events s') <= removed_in s s' id.
+Proof. exact step_session_events. Qed.
+
+(* Over a whole history (the concatenated event lists of all its operations): a session is removed --
+   and settled -- at most once, and exactly once if it was stored at the start and is gone at the end. *)
+Theorem C04_session_settled_at_most_once : forall ops s id,
+  life_inv s -> wf_hist wf_op_life s ops ->
+  cnt (is_removed_ev id) (trace s ops) <= 1 /\
+  cnt (is_paysess_ev id) (trace s ops) <= cnt (is_removed_ev id) (trace s ops).
+Proof. exact trace_settled_at_most_once. Qed.
+
+Theorem C04_session_settled_exactly_once : forall ops s i s' id x,
+  life_inv s -> wf_hist wf_op_life s ops -> run_from s ops i = RunOk s' ->
+  sessions s !! id = Some x -> sessions s' !! id = None ->
+  cnt (is_removed_ev id) (trace s ops) = 1.
+Proof. exact trace_settled_exactly_once. Qed.
+
+(* An hourly payout event for payout [id] occurs only in a begin-blocker, at most once per block, only
+   when the payout is due (next_at <= block time) and its subscription is active, and takes exactly
+   one hour off the payout while moving its due time on by exactly one hour: at most once per due
+   hour and never before it is due. *)
+Theorem C04_hourly_payout_once_per_due_hour : forall s o s' id,
+  life_inv s -> step s o = OOk s' ->
+  let k := cnt (is_payout_ev id) (events s') in
+  k = 0 \/
+  (k = 1 /\ exists t po, o = OBegin t /\ payouts s !! id = Some po /\ po_next_at po <= t /\ 0 < po_hours po /\
+            (exists sb, subs s !! id = Some sb /\ sb_status sb = SActive) /\
+            payouts s' !! id = Some (po <| po_hours := po_hours po - 1 |>
+                                        <| po_next_at := if po_hours po - 1 =? 0 then tzero else po_next_at po + HOUR |>)).
+Proof. exact step_payout_events. Qed.
+
+(* non-vacuity: in the witness history session 1 is removed once and paid for once, payouts 1 and 3 are
+   each paid twice (in two different blocks), among 43 events *)
+Example C04_events_nonvacuous :
+  let tr := trace (init wt_genesis) (wt_ops1 ++ wt_ops2 ++ wt_ops3) in
+  (length tr, map (fun id => (cnt (is_removed_ev id) tr, cnt (is_paysess_ev id) tr, cnt (is_payout_ev id) tr)) [1; 2; 3])
+  = (43%nat, [(1, 1, 2); (0, 0, 0); (0, 0, 2)]).
+Proof. vm_compute. reflexivity. Qed.
+
+
 (* non-vacuity: the witness history satisfies the hypotheses, and in its last block a session was
    settled and removed exactly at its deadline while the other one lives on *)
 Example C04_nonvacuous :
@@ -201,3 +249,7 @@ Print Assumptions C04_session_demotion_cause.
 Print Assumptions C04_session_removal_cause.
 Print Assumptions C04_pending_session_deadline_fixed.
 Print Assumptions C04_node_deactivation_cause.
+Print Assumptions C04_session_events_in_one_operation.
+Print Assumptions C04_session_settled_at_most_once.
+Print Assumptions C04_session_settled_exactly_once.
+Print Assumptions C04_hourly_payout_once_per_due_hour.
